@@ -246,3 +246,63 @@ func VerifH_C04_largeWalk() {
 	}
 	verifCover("done")
 }
+
+// ---- one step of Next from an arbitrary state ----
+
+var (
+	c04StepVals []uint64
+	c04StepPos  int
+)
+
+// verifSeam_riMod replaces it.I.Mod(it.I, it.P) inside rangeIterator.Next: the next group
+// element is whatever the harness chose (the arithmetic itself is the subject of C04.walk /
+// C04.largeWalk / C04.row); what is examined here is the stop and range logic around it.
+func verifSeam_riMod(z, x, y *big.Int) *big.Int {
+	v := c04StepVals[c04StepPos]
+	c04StepPos++
+	return z.SetUint64(v)
+}
+
+// VerifH_C04_step: table row ROW, arbitrary start element s, arbitrary range limit n < P, and
+// up to K arbitrary next group elements x1..xK (each in 1..P-1): Next stops iff the walk is
+// back at s - compared as whole numbers, also above 2^32 -, skips elements above n, returns
+// the first element <= n otherwise, and stays stopped.
+func VerifH_C04_step() {
+	row := verifParam("ROW", 31)
+	K := verifParam("K", 3)
+	g := cyclicGroups[row]
+	P := uint64(g.P)
+	n := ndU64("n")
+	s := ndU64("start")
+	verifAssume(n >= 1 && n < P && s >= 1 && s <= n)
+	c04StepVals, c04StepPos = nil, 0
+	for i := 0; i < K; i++ {
+		x := ndU64("x")
+		verifAssume(x >= 1 && x < P)
+		c04StepVals = append(c04StepVals, x)
+	}
+	last := c04StepVals[K-1]
+	verifAssume(last == s || last <= n) // the K-th element ends the step
+	it := &rangeIterator{P: big.NewInt(g.P), G: big.NewInt(g.G),
+		rangeLimit: new(big.Int).SetUint64(n),
+		I:          new(big.Int).SetUint64(s),
+		startI:     new(big.Int).SetUint64(s)}
+	ok := it.Next()
+	// reference
+	j := 0
+	for j < K-1 && c04StepVals[j] != s && c04StepVals[j] > n {
+		j++
+	}
+	xj := c04StepVals[j]
+	verifAssert(c04StepPos == j+1, "Next consumed a different number of group elements than the reference walk")
+	if xj == s {
+		verifCover("back-at-start")
+		verifAssert(!ok, "Next did not stop when the walk returned to its start element")
+		verifAssert(!it.Next() && c04StepPos == j+1, "Next became true again (or kept walking) after the end")
+	} else {
+		verifCover("next-element")
+		verifAssert(ok, "Next stopped although the walk is not back at its start element (elements compared partially?)")
+		verifAssert(it.Int().IsUint64() && it.Int().Uint64() == xj, "Next does not yield the first group element within the range")
+		verifAssert(xj <= n, "Next yielded an element outside 1..n")
+	}
+}
